@@ -236,7 +236,49 @@ func (p *Prog) Field(rel, typ, field string) *types.Var {
 	if f := promotedField(st, field, 0); f != nil {
 		return f
 	}
+	if f := nestedField(st, n.Obj().Pkg(), field); f != nil {
+		return f
+	}
 	p.Unresolved = append(p.Unresolved, rel+"."+typ+"."+field)
+	return nil
+}
+
+// nestedField finds the field in a record of the same package that the type holds by value
+// (fields regrouped into a carrier struct: mbox.idx.messages for mbox.messages). The
+// name is the same, or — when the carrier's name already says what the prefix said — the old
+// name's tail (idx.path for indexPath, idx.loaded for indexLoaded); the match must be unique.
+func nestedField(st *types.Struct, pkg *types.Package, field string) *types.Var {
+	var exact, tail []*types.Var
+	for i := 0; i < st.NumFields(); i++ {
+		f := st.Field(i)
+		if f.Embedded() {
+			continue
+		}
+		// held by value: a pointer is a reference to another object (mbox.store), not a part
+		nn, ok := f.Type().(*types.Named)
+		if !ok || nn.Obj().Pkg() != pkg {
+			continue
+		}
+		est, ok := nn.Underlying().(*types.Struct)
+		if !ok {
+			continue
+		}
+		for j := 0; j < est.NumFields(); j++ {
+			g := est.Field(j)
+			switch {
+			case g.Name() == field:
+				exact = append(exact, g)
+			case len(g.Name()) >= 4 && len(field) > len(g.Name()) && strings.EqualFold(field[len(field)-len(g.Name()):], g.Name()):
+				tail = append(tail, g)
+			}
+		}
+	}
+	if len(exact) == 1 {
+		return exact[0]
+	}
+	if len(exact) == 0 && len(tail) == 1 {
+		return tail[0]
+	}
 	return nil
 }
 
@@ -288,7 +330,10 @@ func (p *Prog) OptField(rel, typ, field string) *types.Var {
 			return st.Field(i)
 		}
 	}
-	return promotedField(st, field, 0)
+	if f := promotedField(st, field, 0); f != nil {
+		return f
+	}
+	return nestedField(st, pk.Types, field)
 }
 
 // MutexField resolves the (first) field of a struct type whose type is sync.Mutex or
